@@ -83,8 +83,8 @@ func supervise(prop, tier string) int {
 	where := ""
 	lines := strings.Split(first, "\n")
 	for i, l := range lines {
-		if strings.HasPrefix(l, "\t/repo/") && !strings.Contains(l, "/verif_") && i > 0 {
-			file := strings.TrimPrefix(strings.Fields(l)[0], "/repo/")
+		if strings.HasPrefix(l, "\t"+mc.RepoDir+"/") && !strings.Contains(l, "/verif_") && i > 0 {
+			file := strings.TrimPrefix(strings.Fields(l)[0], mc.RepoDir+"/")
 			if k := strings.LastIndex(file, ":"); k >= 0 {
 				file = file[:k]
 			}
